@@ -7,6 +7,7 @@ HERE = os.path.dirname(os.path.dirname(os.path.abspath(__file__)))
 SPECS = os.path.join(HERE, 'specs')
 props = [json.loads(l)['id'] for l in open(os.path.join(HERE, 'properties.jsonl'))]
 na = json.load(open(os.path.join(SPECS, 'not_applicable.json')))
+CLAIMED = json.load(open(os.path.join(SPECS, 'claimed.json')))
 checks = []
 claimed = []
 for pid in props:
@@ -14,7 +15,7 @@ for pid in props:
     if not os.path.exists(p):
         continue
     cfg = json.load(open(p))
-    if not cfg.get('claimed', True):
+    if pid not in CLAIMED:
         continue
     claimed.append(pid)
     checks.append(dict(
